@@ -11,6 +11,7 @@ for name in names:
     d = os.path.join(VERIF, "seeded", name)
     patch = os.path.join(d, "patch.current.diff") if os.path.exists(os.path.join(d, "patch.current.diff")) else os.path.join(d, "patch.diff")
     tmp = tempfile.mkdtemp(prefix="vseed-", dir="/tmp")
+    etmp = tempfile.mkdtemp(prefix="vseedev-", dir="/tmp")
     try:
         subprocess.check_call(["rsync", "-a", "--exclude", "target", "--exclude", ".git", "/repo/", tmp + "/"])
         r = subprocess.run(["patch", "-p1", "--no-backup-if-mismatch", "-s", "-i", patch], cwd=tmp, capture_output=True, text=True)
@@ -23,7 +24,7 @@ for name in names:
         for pid in order:
             if pid not in claimed:
                 continue
-            env = dict(os.environ, VERIF_REPO=tmp, VERIF_CACHE=os.path.join(VERIF, ".cache"))
+            env = dict(os.environ, VERIF_REPO=tmp, VERIF_CACHE=os.path.join(VERIF, ".cache"), VERIF_EVIDENCE_DIR=etmp)
             rr = subprocess.run([os.path.join(VERIF, "bin/check"), pid, "--quick"], env=env, capture_output=True, text=True)
             if rr.returncode != 0:
                 keys = [l.strip()[len("construct: "):] for l in rr.stdout.splitlines() if l.strip().startswith("construct:")]
@@ -31,3 +32,4 @@ for name in names:
         print("%s: %s" % (name, "CAUGHT by " + "; ".join("%s %s" % (p, k) for p, k in fired) if fired else "MISSED"))
     finally:
         shutil.rmtree(tmp, ignore_errors=True)
+        shutil.rmtree(etmp, ignore_errors=True)
